@@ -1519,6 +1519,11 @@ func (n RangeNumber) Compare(v val.Value) (int64, error) {
 			return 0, nil
 		default:
 			if i, ok := v.(val.Int64able); ok {
+				if n.integer == nil && n.float == nil && n.unsigned != nil {
+					// a bound only an unsigned 64-bit number holds (the upper end of "length"
+					// for one) is above every value a narrower type has
+					return 1, nil
+				}
 				a, err := n.getInt64()
 				if err != nil {
 					return 0, err
